@@ -327,6 +327,15 @@ class Run:
 
 # ----------------------------------------------------------------------------- the pipeline
 
+def props_files(spec):
+    """the property's theorem files + its pinned-source file Pms/Props/<id>Mod.lean (when present)"""
+    fs = list(spec.PROPS_FILES)
+    mod = f"Pms/Props/{spec.PROP}Mod.lean"
+    if os.path.exists(os.path.join(LEAN, mod)) and mod not in fs:
+        fs.append(mod)
+    return fs
+
+
 def proof_stage(run, spec):
     """regenerate, build, audit.  `spec` is the property module.  Returns dict with the broken
     obligations (empty when everything checks)."""
@@ -334,7 +343,9 @@ def proof_stage(run, spec):
     gen_info = []
     with LakeLock():
         # 1. regenerate
-        gens = getattr(spec, "GENERATORS", [])
+        gens = list(getattr(spec, "GENERATORS", []))
+        if os.path.exists(os.path.join(LEAN, f"Pms/Props/{spec.PROP}Mod.lean")) and "modshape" not in gens:
+            gens.append("modshape")
         if gens:
             sys.path.insert(0, os.path.join(VERIF, "translator"))
             import pms2lean
@@ -347,7 +358,7 @@ def proof_stage(run, spec):
                 except pms2lean.Unrecognised as e:
                     broken.append({"kind": "translator", "name": f"translator:{g}", "detail": str(e)[:500]})
         # 2. build
-        targets = [rel[:-5].replace("/", ".") for rel in spec.PROPS_FILES] + ["pmsdriver"]
+        targets = [rel[:-5].replace("/", ".") for rel in props_files(spec)] + ["pmsdriver"]
         ok, log, secs = lake_build(targets)
         fails = failed_decls(log) if not ok else []
         if not ok and not fails:
@@ -357,11 +368,11 @@ def proof_stage(run, spec):
         # 3. audit
         names, axioms = [], {}
         if ok:
-            names, axioms, err = run_audit(run.prop, spec.PROPS_FILES)
+            names, axioms, err = run_audit(run.prop, props_files(spec))
             if err:
                 broken.append({"kind": "audit", "name": f"Pms/Audit/{run.prop}.lean", "detail": err[-500:]})
         else:
-            for rel in spec.PROPS_FILES:
+            for rel in props_files(spec):
                 try:
                     names += [n for n, _ in theorems_of(rel)]
                 except OSError:
@@ -396,7 +407,7 @@ def proof_stage(run, spec):
 
 def leanchecker_stage(run, spec):
     """thorough tier: independent re-check of the compiled property modules"""
-    mods = [rel[:-5].replace("/", ".") for rel in spec.PROPS_FILES]
+    mods = [rel[:-5].replace("/", ".") for rel in props_files(spec)]
     t0 = time.time()
     try:
         with LakeLock():
